@@ -14,7 +14,7 @@ Merges == <<
   <<"Float:-0", "Float:+0">>, <<"Float:nan_b", "Float:nan_a">>, <<"Float:nan_neg", "Float:nan_a">>,
   <<"Double:-0", "Double:+0">>, <<"Double:nan_b", "Double:nan_a">>,
   <<"Json:ba", "Json:ab">>, <<"Decimal:1.00", "Decimal:1.0">>, <<"BigDecimal:1.00", "BigDecimal:1.0">>,
-  <<"Array:int_12b", "Array:int_12">>, <<"Array:f_nan2", "Array:f_nan">>, <<"Array:nested_b", "Array:nested">> >>
+  <<"Vector:a2", "Vector:a">>, <<"Array:int_12b", "Array:int_12">>, <<"Array:f_nan2", "Array:f_nan">>, <<"Array:nested_b", "Array:nested">> >>
 Class(n) == IF \E i \in DOMAIN Merges : Merges[i][1] = n
             THEN Merges[CHOOSE i \in DOMAIN Merges : Merges[i][1] = n][2] ELSE n
 RECURSIVE UpTo(_, _, _)
